@@ -42,16 +42,18 @@ Section Cons.
     end.
   Definition cons_G (M : Model) (w : WS) (cs : CSet) : Mat (T:=T) := map (cons_row_G M w) cs.
 
+  (* -1/2 of the axial vector of the skew part of the relative rotation (= sin(angle) * axis) *)
+  Definition rot_err (R : M3 T) : V3 :=
+    let h := oopp O (ohalf O) in
+    mkV3 (omul O h (osub O (m12 R) (m21 R))) (omul O h (osub O (m20 R) (m02 R))) (omul O h (osub O (m01 R) (m10 R))).
   Definition cons_row_err (M : Model) (w : WS) (r : CRow) : T :=
     match r with
     | RContact _ _ _ => t0
     | RLoop idp ids Xp Xs ax _ _ =>
         let A := loop_frame M w idp Xp in let B := loop_frame M w ids Xs in
         let R := m3mul O (m3T (stE A)) (stE B) in
-        let h := oopp O (ohalf O) in
-        let rot := mkV3 (omul O h (osub O (m12 R) (m21 R))) (omul O h (osub O (m20 R) (m02 R))) (omul O h (osub O (m01 R) (m10 R))) in
         let lin := m3Tv O (stE A) (v3sub O (str B) (str A)) in
-        svdot O ax (svof rot lin)
+        svdot O ax (svof (rot_err R) lin)
     end.
   (* velocity error: needs the body velocities in the workspace (v[0] is zeroed as the queries do) *)
   Definition cons_row_errd (M : Model) (w : WS) (qd : list T) (G : Mat (T:=T)) (k : nat) (r : CRow) : T :=
